@@ -256,6 +256,9 @@ class AEval(dtable.Eval):
                 raise Ret(v)
             if v[0] == "ctor" and v[1] in ("Ok", "Some") and len(v[2]) == 1:
                 return v[2][0]
+            if v[0] == "atom" and not v[1].startswith("expr:"):
+                # the result of an uninterpreted call: its success value is named after it
+                return v
             raise Unknown("? on " + str(v)[:60])
         if k == "ForLoop":
             it = self.ex(e["iter"], env)
@@ -422,6 +425,8 @@ class AEval(dtable.Eval):
                 return self.apply(env[f["path"]], args)
             if last in self.funcs:
                 return self.call_fn(last, args)
+            if f["path"] in ("Box::new", "Rc::new", "Arc::new", "Into::into", "From::from", "std::convert::identity", "Clone::clone", "core::clone::Clone::clone") and len(args) == 1:
+                return args[0]
             if last[:1].isupper():
                 return C(last, *args)
             if f["path"] in ("Vec::new", "Vec::with_capacity", "BTreeMap::new", "BTreeSet::new", "HashMap::new", "HashSet::new", "VecDeque::new"):
